@@ -213,6 +213,27 @@ def escapeTextExpansion : Expansion where
   ascii := fun _ _ h => escapeTextByte_ascii h
   high := fun c _ h => escapeTextByte_plain (special_small h) (by intro hc; subst hc; simp at h)
 
+theorem escapeAttrByte_ascii {c : UInt8} (h : c.toNat < 128) : ∀ x ∈ escapeAttrByte c, x.toNat < 128 := by
+  by_cases h9 : c = 9
+  · subst h9; decide
+  by_cases h10 : c = 10
+  · subst h10; decide
+  by_cases h13 : c = 13
+  · subst h13; decide
+  cases hs : isSpecial c with
+  | false =>
+    rw [escapeAttrByte_plain hs h9 h10 h13]; intro x hx; simp only [List.mem_singleton] at hx; subst hx; exact h
+  | true => rw [escapeAttrByte_special hs]; exact escapeByte_ascii h
+
+def escapeAttrExpansion : Expansion where
+  f := escapeAttr
+  g := fun c _ => escapeAttrByte c
+  nil := rfl
+  cons := escapeAttr_cons
+  ascii := fun _ _ h => escapeAttrByte_ascii h
+  high := fun c _ h => escapeAttrByte_plain (special_small h) (by intro hc; subst hc; simp at h)
+    (by intro hc; subst hc; simp at h) (by intro hc; subst hc; simp at h)
+
 /-- **escaping a valid UTF-8 string gives a valid UTF-8 string** (quick-xml's `escape`) -/
 theorem utf8Valid_escape {b : Bytes} (h : utf8Valid b = true) : utf8Valid (escape b) = true :=
   utf8Valid_expand escapeExpansion h
@@ -220,5 +241,9 @@ theorem utf8Valid_escape {b : Bytes} (h : utf8Valid b = true) : utf8Valid (escap
 /-- … and so does `xml/ser.rs::text` -/
 theorem utf8Valid_escapeText {b : Bytes} (h : utf8Valid b = true) : utf8Valid (escapeText b) = true :=
   utf8Valid_expand escapeTextExpansion h
+
+/-- … and `xml/ser.rs::attr_value` -/
+theorem utf8Valid_escapeAttr {b : Bytes} (h : utf8Valid b = true) : utf8Valid (escapeAttr b) = true :=
+  utf8Valid_expand escapeAttrExpansion h
 
 end S3V.Xml
